@@ -7,6 +7,12 @@ ids = [p["id"] for p in props]
 
 # id -> (technique, level text, level note, design ref)
 CHECKS = {
+ "C02": ("exact reference-model monitor: + - neg * / powi recip on dyadic-grid operands vs exact rational truncated-polynomial algebra; exhaustive one-hot (monomial, monomial) pairs + random grid points + 2^k presence patterns",
+         "Runtime monitoring with an exact oracle: every result part must equal the exact rational value (no tolerance). The one-hot enumeration covers every existing monomial-pair interaction of every shape (reported as monomial_pair_coverage; the run is inconclusive if one is missed); random grid points and presence enumeration add ~2e5 (quick) / ~5e6 (thorough) cases over 46 types incl. nested, f32 and dynamic dimensions 0..6.",
+         "grid sizes chosen by a conservative mantissa budget so that no correct formula can round; results not representable with 3 spare bits are dropped and counted", "DESIGN.md 3/C02"),
+ "C03": ("reference-model monitor over generated programs: random expression DAGs of every interface operation evaluated on every type, every node compared with a tracked Taylor-algebra model within the running first-order error bound",
+         "Runtime monitoring of compositions: ~7e5 (quick) / ~3e7 (thorough) program nodes over 45 types; programs up to 32 nodes and depth ~19 with sharing, 1-3 independent inputs whose higher-order and mixed parts are independent of the first-order parts, hostile operands (exact-zero real parts, exact 1, absent parts). Every operation form must have been executed (74 forms) or the run is inconclusive.",
+         "first-order error analysis (second-order products of residues are included); libm trusted to ~1 ulp; K=32 with observed max ratio ~6 on the unchanged tree", "DESIGN.md 3/C03"),
  "C01": ("reference-model monitor: every call of every elementary function on every type vs power-series Taylor composition, stratified random inputs",
          "Runtime monitoring: the real functions are executed on ~3e5 (quick) / ~1e7 (thorough) generated operands over 51 type instantiations and every argument region; each result part is compared with an independent truncated-Taylor-algebra model within 32*u*sum|terms|. Holds on what was observed, not a proof.",
          "trusts libm for g(x0); tolerance constant calibrated on the unchanged tree (max observed ratio < 10)", "DESIGN.md 3/C01"),
